@@ -238,6 +238,14 @@ func Run(ctx *core.Ctx) {
 	}
 	close(jobs)
 	wg.Wait()
+	// Expect: 100-continue from eager and patient clients (outside the request model's domain; judged at the origin)
+	for i, n := 0, ctx.N(24, 240); i < n; i++ {
+		ec := genExpect(ctx.Rng.Sub())
+		runExpect(ctx, ec)
+		if i == 0 {
+			ctx.Sample(ec)
+		}
+	}
 }
 
 func replayWith(ctx *core.Ctx, pool *envPool, raw json.RawMessage) {
@@ -255,6 +263,11 @@ func replayWith(ctx *core.Ctx, pool *envPool, raw json.RawMessage) {
 		return
 	case "cross":
 		replayCross(ctx, raw)
+		return
+	case "expect":
+		var ec expectCase
+		json.Unmarshal(raw, &ec)
+		runExpect(ctx, ec)
 		return
 	case "one":
 		var o oneReq
